@@ -178,6 +178,7 @@ def run_history(ctx, R, rng, nops, populated, FatFileSystem, sig='fs.history', f
 
 
 def run(ctx, build):
+    model_correspondence(ctx)
     from nobodd.fs import FatFileSystem
     R = ctx.runner('Fat')
     rng = ctx.rng
@@ -186,6 +187,18 @@ def run(ctx, build):
         n *= 2
     for i in range(n):
         run_history(ctx, R, rng, 60 if ctx.thorough else 40, populated=(i % 2 == 1), FatFileSystem=FatFileSystem)
+
+
+def model_correspondence(ctx):
+    """differential runs of the extracted Coq models of this property's cores against the real classes"""
+    import fat_table_corr
+    fat_table_corr.run(ctx)
+    SPEC['theorems'].update(getattr(fat_table_corr, 'SPEC_THEOREMS', {}))
+    SPEC['trusted_base'].extend(x for x in getattr(fat_table_corr, 'TRUSTED', []) if x not in SPEC['trusted_base'])
+    import fat_alloc_corr
+    fat_alloc_corr.run(ctx)
+    SPEC['theorems'].update(getattr(fat_alloc_corr, 'SPEC_THEOREMS', {}))
+    SPEC['trusted_base'].extend(x for x in getattr(fat_alloc_corr, 'TRUSTED', []) if x not in SPEC['trusted_base'])
 
 
 def replay(ctx, obj):
